@@ -39,6 +39,10 @@ AGE_BLOCK = ("                age_limit = original_expiration_time - grant_renew
              "                if age > age_limit:\n"
              "                    expired = True\n")
 
+INIT_BLOCK = "        num_valid_leases_configured = 0\n        expired_leases_configured = []\n"
+RESET_COMMENT = "            #  expired-or-not according to our configured age limit\n"
+RESET = RESET_COMMENT + "            expired = False\n"
+
 MUTANTS = [
     # ---- C26.1 dimension analysis
     M("age-limit-is-a-timestamp", EXP, FIX, BUG, "C26.1",
@@ -150,7 +154,39 @@ MUTANTS = [
        "        self.expiration_enabled = expiration_enabled\n", "        self.expiration_enabled = True\n", "C26.5"),
     mk("crawler-sharetypes-ignored", EXP,
        "        self.sharetypes_to_expire = sharetypes\n", "        self.sharetypes_to_expire = (\"mutable\", \"immutable\")\n", "C26.5"),
+    # ---- C26.6 the table holds in every iteration (nothing leaks from the previous lease)
+    mk("verdict-flag-initialised-once", EXP, INIT_BLOCK, INIT_BLOCK + "        expired = False\n", "C26.6",
+       edits=[(EXP, RESET, RESET_COMMENT)], note="seeded C26-A: the per-lease reset hoisted out of the lease loop"),
+    mk("queue-everything-after-first-expired", EXP,
+       "            if expired:\n                expired_leases_configured.append(li)\n",
+       "            if expired or len(expired_leases_configured):\n                expired_leases_configured.append(li)\n",
+       "C26.6", note="same effect through the queue itself: once one lease is queued all later ones are"),
+    mk("verdict-kept-on-the-crawler", EXP, INIT_BLOCK, INIT_BLOCK + "        self._lease_expired = False\n", "C26.6",
+       edits=[(EXP, RESET, RESET_COMMENT),
+              (EXP, "                if age > age_limit:\n                    expired = True\n",
+               "                if age > age_limit:\n                    self._lease_expired = True\n"),
+              (EXP, "                if grant_renew_time < self.cutoff_date:\n                    expired = True\n",
+               "                if grant_renew_time < self.cutoff_date:\n                    self._lease_expired = True\n"),
+              (EXP, "            if sharetype not in self.sharetypes_to_expire:\n                expired = False\n\n            if expired:\n",
+               "            if sharetype not in self.sharetypes_to_expire:\n                self._lease_expired = False\n\n            if self._lease_expired:\n")],
+       note="same slip with the flag held in an instance attribute"),
+    mk("reset-only-when-still-valid-originally", EXP, RESET,
+       RESET_COMMENT + "            if original_expiration_time > now:\n                expired = False\n", "C26.6",
+       edits=[(EXP, INIT_BLOCK, INIT_BLOCK + "        expired = False\n")],
+       note="the reset survives on some paths only"),
     # ---- benign
+    mk("benign-flag-reset-at-end-of-iteration", EXP, INIT_BLOCK, INIT_BLOCK + "        expired = False\n", None,
+       edits=[(EXP, RESET, RESET_COMMENT),
+              (EXP, "            else:\n                num_valid_leases_configured += 1\n",
+               "            else:\n                num_valid_leases_configured += 1\n            expired = False\n")],
+       note="initialised before the loop and re-established by every pass: inductively constant at the loop head"),
+    mk("benign-mode-test-hoisted", EXP, INIT_BLOCK, INIT_BLOCK + "        by_age = self.mode == \"age\"\n", None,
+       edits=[(EXP, "            if self.mode == \"age\":\n                age_limit", "            if by_age:\n                age_limit")],
+       note="loop-invariant value computed once before the loop"),
+    mk("benign-carried-counter-in-statistics", EXP,
+       "            self.add_lease_age_to_histogram(age)\n",
+       "            if num_leases <= 1000:\n                self.add_lease_age_to_histogram(age)\n", None,
+       note="a loop-carried counter steers statistics only"),
     mk("benign-rename-limit", EXP, AGE_BLOCK, AGE_BLOCK.replace("age_limit", "limit"), None),
     mk("benign-if-else-limit", EXP, AGE_BLOCK,
        "                if self.override_lease_duration is None:\n"
